@@ -737,7 +737,9 @@ func logCrosspostInAllpost(user *ptttype.UserecRaw, board *ptttype.BoardHeaderRa
 	}
 
 	_ = cache.SetLastPosttime(bidAllpost, nowTS)
-	_ = cache.TouchBPostNum(bidAllpost, 1)
+	// recount as DoPostArticle does: a +1 on a cold total (0 after a reload) would
+	// pass for a count and is never recounted afterwards.
+	_ = cache.SetBTotal(bidAllpost)
 
 	return nil
 }
@@ -1003,7 +1005,9 @@ func doCrosspost(
 	// use filename.CreateTime as lastPosttime.
 	_ = cache.SetLastPosttime(bid, nowTS)
 
-	_ = cache.TouchBPostNum(bid, 1)
+	// recount as DoPostArticle does: a +1 on a cold total (0 after a reload) would
+	// pass for a count and is never recounted afterwards.
+	_ = cache.SetBTotal(bid)
 
 	summary = ptttype.NewArticleSummaryRaw(idx, boardID, fh)
 
